@@ -33,9 +33,8 @@ Exemptions, exactly (each with a witness on the real code):
   a `Where` group without a direct `WHERE` child (`'where ,x%s *set; in'`: `WHERE` is inside an IdentifierList) and a
   `Parenthesis` without a direct `(` child (`"( ::= 'or )"`: the `(` is inside an Identifier) return early, children included.
 * not selected by `_next_token` in the first place: `BETWEEN`, and the `AND` that closes it.
-What is not proved: the statement for every list of the tree at once.  `_process_identifierlist`, `_process_case` and
-`_process_parenthesis` insert their own `nl()` tokens *before* `_process_default` runs, so the input hypothesis would have to
-be stated about those intermediate lists (it fails exactly in the zero-indentation case above).
+The statement for every list of the tree at once (the lift through `_process_identifierlist`, `_process_case`,
+`_process_parenthesis`, `_process_where` and the recursion, with the side conditions it forces) is `SqlProofs/ReindentLift*.lean`.
 -/
 set_option linter.unusedSimpArgs false
 namespace Sql
